@@ -89,6 +89,7 @@ func runC05(w *mc.Worker) {
 	runVarSeqSpace(w, "vars-L2", 1, 2, func(c *seqCase, vars map[string]string, bal env.Bal) {
 		judgeSeqCase(w, c, vars, bal, owns, nontriv, false)
 	})
+	runThreeSendersKept(w, owns, nontriv)
 	// two kept shares in one statement with a credited share between and after them, two senders
 	w.Stage("two-kept", "ordered {max c1 kept, max c2 to @x, max c3 kept, remaining to @y} and allotment {1/3 kept, 1/3 to @x, 1/3 kept} from {@a @b}; caps in {1,2,4}; balances {0,1,2,3,5}^2; amounts {1,3,6,9}", func() {
 		caps := []string{"1", "2", "4"}
